@@ -123,7 +123,7 @@ def gen_session(rng, backend, cross=False):
             seg.append(op)
         segs.append(seg)
     spec = dict(backend=backend, n=n, opts=OPTS[backend], segs=segs, args={"a": 0.25} if use_free else {},
-                share=rng.random() < 0.4)
+                share=rng.random() < 0.4, optimize=rng.choice([None, None, None, "run", "explicit", "method"]))
     need = er.needs_succ(spec)
     spec["succ"] = [need[j] or (j > 0 and rng.random() < 0.5) for j in range(nseg)]
     if any(need) and rng.random() < 0.35:
@@ -206,6 +206,68 @@ def gen_runopts(rng, backend):
         kw["modes"] = rng.choice([[], [0], rng.sample(range(n), 2), None])
     return dict(backend=backend, n=n, opts=OPTS[backend], args={}, segs=segs, succ=[False] * nseg, run_kw=kw,
                 prog_shots=[rng.choice([None, 2, 3, 4]) for _ in range(nseg)], noncomparable=True)
+
+
+MERGE_G1 = {"gaussian": ["Dgate", "Sgate", "Rgate", "Xgate", "Zgate", "Pgate"], "bosonic": ["Dgate", "Sgate", "Rgate", "Xgate", "Zgate", "Pgate"],
+            "fock": ["Dgate", "Sgate", "Rgate", "Xgate", "Zgate", "Pgate", "Kgate", "Vgate"]}
+MERGE_G2 = {"gaussian": ["BSgate", "S2gate", "CXgate", "CZgate"], "bosonic": ["BSgate", "S2gate", "CXgate", "CZgate"],
+            "fock": ["BSgate", "S2gate", "CKgate", "CXgate", "CZgate"]}
+MERGE_CH = {"gaussian": ["LossChannel", "ThermalLossChannel", "PassiveChannel"], "bosonic": ["LossChannel", "ThermalLossChannel"],
+            "fock": ["LossChannel"]}
+
+
+def gen_optimize(rng, backend):
+    """sessions for the optimiser route (compile_options={'optimize': True} / compile(optimize=True) / optimize()): on
+    purpose ADJACENT mergeable operations on the same modes -- same-family gates (all dagger combinations, equal other
+    parameters), pairs that cancel to the identity (a, -a / G, G.H), channels (Loss, ThermalLoss with equal nbar,
+    PassiveChannel; also T1*T2 = 1), two preparations in a row, runs of three -- half of them with shared Operation
+    instances, separated by spectators on other modes"""
+    n = rng.randint(2, 3)
+    small = backend == "fock"
+    segs = []
+    for _ in range(rng.choice([1, 2, 2])):
+        seg = []
+        for _ in range(rng.randint(1, 3)):
+            kind = rng.choice(["g1", "g1", "g2", "ch", "ch", "prep"])
+            rep = rng.choice([2, 2, 3])
+            if kind == "g1":
+                cls, m = rng.choice(MERGE_G1[backend]), rng.randrange(n)
+                rest = [rng.choice([0.0, 0.25])] * (er.GATES1[cls] - 1)
+                a = pg.dyadic(rng, -4, 4, nonzero=True) / (8 if small else 2)
+                firsts = [a] + [rng.choice([-a, a, a / 2, pg.dyadic(rng, -4, 4, nonzero=True) / (8 if small else 2)]) for _ in range(rep - 1)]
+                if cls == "Dgate":
+                    firsts = [abs(x) for x in firsts]
+                block = [dict(cls=cls, regs=[m], pars=[x] + rest, dagger=rng.random() < 0.4) for x in firsts]
+            elif kind == "g2":
+                cls = rng.choice(MERGE_G2[backend])
+                regs = rng.sample(range(n), 2)
+                rest = [rng.choice([0.0, 0.25])] * (er.GATES2[cls] - 1)
+                a = pg.dyadic(rng, -4, 4, nonzero=True) / (8 if small else 2)
+                block = [dict(cls=cls, regs=list(regs), pars=[x] + rest, dagger=rng.random() < 0.4)
+                         for x in [a] + [rng.choice([-a, a, a / 2]) for _ in range(rep - 1)]]
+            elif kind == "ch":
+                cls, m = rng.choice(MERGE_CH[backend]), rng.randrange(n)
+                if cls == "PassiveChannel":
+                    k2 = rng.choice([1, 2])
+                    regs = rng.sample(range(n), k2)
+                    mats = [[[rng.choice([0.5, 0.25, 0.75]) if i == j else (0.125 if k2 == 2 else 0.0) for j in range(k2)] for i in range(k2)]
+                            for _ in range(rep)]
+                    block = [dict(cls=cls, regs=list(regs), pars=[T]) for T in mats]
+                else:
+                    Ts = [rng.choice([0.5, 0.25, 0.75, 1.0]) for _ in range(rep)]
+                    if rng.random() < 0.2:
+                        Ts = [1.0] * rep
+                    nbar = rng.choice([0.5, 1.0])
+                    block = [dict(cls=cls, regs=[m], pars=[T] + ([nbar] if cls == "ThermalLossChannel" else [])) for T in Ts]
+            else:
+                m = rng.randrange(n)
+                block = [dict(cls="Vacuum", regs=[m], pars=[]), dict(cls="Coherent", regs=[m], pars=[0.25, 0.5])]
+            seg += block
+            if rng.random() < 0.5:      # a spectator on another mode must not prevent the merge
+                seg.insert(len(seg) - 1, dict(cls="Rgate", regs=[rng.choice([x for x in range(n) if x not in block[0]["regs"]] or [0])], pars=[0.375]))
+        segs.append(seg)
+    return dict(backend=backend, n=n, opts=OPTS[backend], args={}, segs=segs, succ=[False] + [rng.random() < 0.5] * (len(segs) - 1),
+                share=rng.random() < 0.5, optimize=rng.choice(["run", "run", "explicit", "method"]))
 
 
 def gen_history(rng, backend):
@@ -296,7 +358,7 @@ def scripts(ids):
     }
 
 
-def exec_script(sf, spec, progs, script):
+def exec_script(sf, spec, progs, script, optimize=False):
     """-> dict(steps, err, eng attrs, vals, locked, state, snaps_ok, outcomes)"""
     backend = spec["backend"]
     eng = sf.Engine(backend, backend_options=dict(spec["opts"]))
@@ -304,7 +366,8 @@ def exec_script(sf, spec, progs, script):
     before = [er.snapshot(p) for p in progs]
     steps, outcomes, err, state, in_call = [], [], None, None, False
     run_args = dict(spec["args"])
-    compile_options = dict(warn_connected=False)
+    compile_options = dict(warn_connected=False, optimize=True) if optimize else dict(warn_connected=False)
+    copts0 = dict(compile_options)
     for act in script:
         try:
             if "run" in act:
@@ -338,7 +401,7 @@ def exec_script(sf, spec, progs, script):
     return dict(steps=steps, err=err, in_call=in_call, run_ids=run_ids, samples=samples, vals=vals,
                 locked=[bool(p.locked) for p in progs], state=state, outcomes=outcomes,
                 snap=[er.snap_diff(a, b) for a, b in zip(before, after)],
-                args_ok=(run_args == dict(spec["args"])), copts_ok=(compile_options == dict(warn_connected=False)),
+                args_ok=(run_args == dict(spec["args"])), copts_ok=(compile_options == copts0),
                 prev=None if not eng.run_progs else [[r.ind, bool(r.active)] for r in eng.run_progs[-1].reg_refs.values()])
 
 
@@ -359,7 +422,7 @@ def model_request(spec, script, outcomes, concat=False):
 
 
 def modelled(spec):
-    return not any(op["cls"] in er.UNMODELLED for seg in spec["segs"] for op in seg)
+    return not any(op["cls"] in er.UNMODELLED for seg in spec["segs"] for op in seg) and not er.has_matrix(spec)
 
 
 def compare_session(ctx, case, real, model):
@@ -462,7 +525,25 @@ def one_session(ctx, sf, spec, reqs, pending, kinds=("list", "seq", "cat", "rese
             ctx.fail(f"program-construction-raised:{type(e).__name__}", f"{backend}: building the programs of a valid session "
                      f"({pat}) raised {type(e).__name__}: {e}", rp)
             return
-        real = exec_script(sf, spec, progs, script)
+        # optimisation: the reference (concatenated program) is always run WITHOUT the optimiser
+        omode = spec.get("optimize") if pat != "cat" else None
+        users, usnap = progs, None
+        if omode in ("explicit", "method"):
+            usnap = [er.snapshot(p) for p in users]
+            try:
+                progs = [p.optimize() if omode == "method" else p.compile(compiler=backend, optimize=True, warn_connected=False)
+                         for p in users]
+            except Exception as e:  # noqa: BLE001
+                ctx.fail(f"optimize-raised:{type(e).__name__}", f"{backend}: {'optimize()' if omode == 'method' else 'compile(optimize=True)'} "
+                         f"raised {type(e).__name__}: {e}", rp)
+                return
+        real = exec_script(sf, spec, progs, script, optimize=(omode == "run"))
+        if usnap is not None:
+            for i, (a, p) in enumerate(zip(usnap, users)):
+                d = er.snap_diff(a, er.snapshot(p))
+                if d:
+                    ctx.fail("program-mutated:" + ",".join(d) + ":optimize", f"{backend}: {'optimize()' if omode == 'method' else 'compile(optimize=True)'}"
+                             f" + run ({pat}) changed {d} of the user's program {i}", rp)
         results[pat] = real
         ctx.tally(f"pattern:{pat}:" + (real["err"] or "ok"))
         # ---- (C) programs untouched, also on the exception path
@@ -475,7 +556,9 @@ def one_session(ctx, sf, spec, reqs, pending, kinds=("list", "seq", "cat", "rese
             ctx.fail("run-arguments-mutated", f"{backend}: run changed the caller's " +
                      ("args" if not real["args_ok"] else "compile_options") + " dictionary", rp)
         # ---- (B) model
-        if ctx.proof_ok and modelled(spec):
+        if omode:
+            ctx.tally("corr:optimised run (call trace not modelled; state compared with the unoptimised reference)")
+        elif ctx.proof_ok and modelled(spec):
             reqs.append(model_request(spec, script, real["outcomes"], concat=(pat == "cat")))
             pending.append((dict(case, pattern=pat), real))
     # ---- (C) a measurement with `select` leaves exactly the selected value in its RegRef (concatenated program)
@@ -580,6 +663,9 @@ def one_session(ctx, sf, spec, reqs, pending, kinds=("list", "seq", "cat", "rese
             and any(r["err"] is None for r in results.values()):
         ctx.tally("oracle:NaN state in all patterns (zero-probability post-selection)")
         return
+    # truncated Fock space: G(a) G(b) = G(a + b) only up to the cutoff error for active gates, so optimised runs on the
+    # fock back end are compared with the unoptimised reference at 5e-3 (parameters are <= 0.25 there)
+    tol = 5e-3 if (backend == "fock" and spec.get("optimize")) else STATE_TOL
     later_nongauss = any(o["cls"] in ("Fock", "Catstate") for sg in spec["segs"][1:] for o in sg)
     ref = "cat" if "cat" in results else "list"
     for pat in results:
@@ -594,7 +680,7 @@ def one_session(ctx, sf, spec, reqs, pending, kinds=("list", "seq", "cat", "rese
         if a["err"]:
             continue
         d = er.state_dist(a["state"], b["state"])
-        if not d < STATE_TOL:
+        if not d < tol:
             ctx.fail(sig_for(ref, pat), f"{backend}: final state of pattern '{pat}' differs from '{ref}' by {d:.3g}", rp)
     # list vs seq must agree on every back end, whatever the defects above
     if "list" in results and "seq" in results and results["list"]["err"] != results["seq"]["err"]:
@@ -603,7 +689,7 @@ def one_session(ctx, sf, spec, reqs, pending, kinds=("list", "seq", "cat", "rese
                  (f"raise {results['seq']['err']}" if results["seq"]["err"] else "succeed"), rp)
     if "list" in results and "seq" in results and results["list"]["err"] is None and results["seq"]["err"] is None:
         d = er.state_dist(results["list"]["state"], results["seq"]["state"])
-        if not d < STATE_TOL:
+        if not d < tol:
             ctx.fail(f"compositional:list-vs-seq:{backend}", f"{backend}: run([p..]) and successive runs differ by {d:.3g}", rp)
     # reset: engine attributes
     if "reset" in results and results["reset"]["err"] is None and "list" in results and results["list"]["err"] is None:
@@ -680,6 +766,28 @@ def reset_and_compile_checks(ctx, sf, spec):
             if c is not None and (c.reg_refs is not p.reg_refs or c.free_params is not p.free_params or c.circuit is p.circuit):
                 ctx.fail("compile-not-linked-copy", f"compile(compiler={comp}): result does not share RegRefs/free parameters "
                          "with, or shares the circuit list of, its source", rp)
+    # the optimiser route, for every simulator compiler and Program.optimize(): sources untouched (values AND identity
+    # of every parameter list), same result the second time
+    def canon_o(pr):
+        return [(type(c.op).__name__, bool(getattr(c.op, "dagger", False)), tuple(r.ind for r in c.reg),
+                 tuple(round(par_value(x, ENV_M, ENV_F), 10) if np.ndim(x) == 0 else np.asarray(x).round(10).tobytes() for x in c.op.p))
+                for c in pr.circuit]
+    for comp in ("fock", "gaussian", "bosonic", None):
+        for i, p in enumerate(progs):
+            before = er.snapshot(p)
+            try:
+                o1 = p.optimize() if comp is None else p.compile(compiler=comp, optimize=True, warn_connected=False)
+                k1 = canon_o(o1)
+                o2 = p.optimize() if comp is None else p.compile(compiler=comp, optimize=True, warn_connected=False)
+            except Exception:  # noqa: BLE001   (class unknown to that compiler)
+                o1 = None
+            d = er.snap_diff(before, er.snapshot(p))
+            ctx.oracle_cases += 1
+            what = "optimize()" if comp is None else f"compile(compiler={comp}, optimize=True)"
+            if d:
+                ctx.fail("optimize-mutated:" + ",".join(d), f"{what} changed {d} of the source program {i}", rp)
+            elif o1 is not None and canon_o(o2) != k1:
+                ctx.fail("optimize-history-dependent", f"{what} gives another circuit the second time", rp)
     # compiling is history independent: the same program compiled twice (with another compiler in between) and the
     # compiled program compiled again give the same circuit; none of these calls changes any of the programs involved
     def canon(pr):
@@ -829,7 +937,7 @@ def heap_of(objs):
         if id(o.p) not in index:
             index[id(o.p)] = len(pls)
             pls.append([sym_to_model(x) for x in o.p])
-        ops_.append(dict(cls=type(o).__name__, pl=index[id(o.p)], dagger=bool(o.dagger)))
+        ops_.append(dict(cls=type(o).__name__, pl=index[id(o.p)], dagger=bool(getattr(o, "dagger", False))))
     return dict(ops=ops_, pls=pls)
 
 
@@ -910,6 +1018,84 @@ def heaps_equal(a, b):
                                      for x, y in zip(l1, l2)):
             return False
     return True
+
+
+def heap_merge_cases(ctx, sf, reqs, pending):
+    """Gate.merge / Channel.merge for every class that inherits them x first parameters (equal, opposite, other,
+    measured) x dagger combinations x equal / different other parameters x same / other family: operands untouched
+    (values and list identity), result = model"""
+    from strawberryfields import ops
+    from strawberryfields.program_utils import MergeFailure
+    prog = sf.Program(3)
+    prog.reg_refs[2].val = 0.5
+    gates = ["Dgate", "Sgate", "Rgate", "BSgate", "S2gate", "Kgate", "Vgate", "CKgate", "Xgate", "Zgate", "Pgate", "CXgate", "CZgate"]
+    chans = ["LossChannel", "ThermalLossChannel"]
+    mk = lambda v: {"meas": 2 * prog.reg_refs[2].par, "measneg": -2 * prog.reg_refs[2].par}.get(v, v)
+    for cls in gates + chans:
+        chan = cls in chans
+        npar = {**er.GATES1, **er.GATES2, **er.CHANNELS}[cls]
+        firsts = [(0.5, 0.25), (0.5, 2.0), (1.0, 1.0)] if chan else \
+            [(0.375, 0.25), (0.375, -0.375), (0.375, 0.375), ("meas", "meas"), ("meas", "measneg"), ("meas", 0.25)]
+        for fa, fb in firsts:
+            for da, db in ([(False, False)] if chan else [(False, False), (False, True), (True, False), (True, True)]):
+                for same_rest in (True, False):
+                    for other_family in (False, True):
+                        if npar == 1 and not same_rest:
+                            continue
+                        A = getattr(ops, cls)(*([mk(fa)] + [0.25] * (npar - 1)))
+                        clsb = ("LossChannel" if cls != "LossChannel" else "ThermalLossChannel") if (chan and other_family) else \
+                            (("Rgate" if cls != "Rgate" else "Kgate") if other_family else cls)
+                        nb = {**er.GATES1, **er.GATES2, **er.CHANNELS}[clsb]
+                        B = getattr(ops, clsb)(*([mk(fb)] + [0.25 if same_rest else 0.5] * (nb - 1)))
+                        if da:
+                            A = A.H
+                        if db:
+                            B = B.H
+                        case = dict(cls=cls, other=clsb, a=str(fa), b=str(fb), da=da, db=db, same_rest=same_rest)
+                        ctx.count("heap:merge", case, True)
+                        before = heap_of([A, B])
+                        ids = (id(A.p), id(B.p), [id(x) for x in A.p], [id(x) for x in B.p])
+                        try:
+                            r = A.merge(B)
+                            real = "identity" if r is None else heap_of([A, B, r])
+                        except MergeFailure:
+                            r, real = None, "failure"
+                        except Exception as e:  # noqa: BLE001
+                            ctx.fail(f"merge-raised:{type(e).__name__}", f"{cls}.merge({clsb}) raised {type(e).__name__}: {e}", dict(kind="heap-merge", **case))
+                            continue
+                        ctx.oracle_cases += 1
+                        if heap_of([A, B]) != before or ids != (id(A.p), id(B.p), [id(x) for x in A.p], [id(x) for x in B.p]):
+                            ctx.fail("merge-mutated-operand", f"{cls}{'.H' if da else ''}.merge({clsb}{'.H' if db else ''}) changed one of its "
+                                     "operands (merge must never modify self or other)", dict(kind="heap-merge", **case))
+                        if r is not None and (r.p is A.p or r.p is B.p) and r is not A and r is not B:
+                            ctx.fail("merge-result-shares-parameter-list", f"{cls}.merge: the new operation shares its parameter list with an "
+                                     "operand", dict(kind="heap-merge", **case))
+                        if ctx.proof_ok:
+                            reqs.append(dict(op="eng.merge", heap=before, a=0, b=1, channel=chan))
+                            pending.append((case, real))
+
+
+def flush_heap_merge(ctx, reqs, pending):
+    if not reqs:
+        return
+    for (case, real), model in zip(pending, ctx.lean(reqs)):
+        pair = "Gate/Channel.merge vs Eng.gateMergeH/channelMergeH"
+        if "__error__" in model:
+            ctx.disagree(pair, case, model, real)
+            continue
+        res = model["res"]
+        if res == "unmodelled":
+            ctx.tally("merge:unmodelled")
+            continue
+        ctx.corr_cases += 1
+        if isinstance(res, str) or isinstance(real, str):
+            if res != real:
+                ctx.disagree(pair + " (outcome)", case, res, real if isinstance(real, str) else "merged")
+            continue
+        if res["merged"] != 2 or not heaps_equal(model["heap"], real):
+            ctx.disagree(pair + " (heap)", case, model["heap"], real)
+    reqs.clear()
+    pending.clear()
 
 
 def canon_seq(objs_seq):
@@ -1121,6 +1307,8 @@ def run(ctx, sf):
     flush_heap_apply(ctx, hr, hp)
     heap_decompose_cases(ctx, sf, hr, hp)
     flush_heap_decompose(ctx, hr, hp)
+    heap_merge_cases(ctx, sf, hr, hp)
+    flush_heap_merge(ctx, hr, hp)
     dagger_inverse_checks(ctx, sf)
     rng = ctx.rng
     tdm_checks(ctx, sf, rng)
@@ -1138,10 +1326,12 @@ def run(ctx, sf):
                 spec = gen_history(rng, backend)
             if k % 6 == 4:
                 spec = gen_runopts(rng, backend)
+            if k % 6 == 3:
+                spec = gen_optimize(rng, backend)
             one_session(ctx, sf, spec, reqs, pending)
             if k % 3 == 1:
                 cross_backend_check(ctx, sf, spec)
-            if k % 2 == 0:
+            if k % 2 == 0 or spec.get("optimize"):
                 reset_and_compile_checks(ctx, sf, spec)
                 compile_corr(ctx, sf, spec, creqs, cpending)
         if len(reqs) > 400:
@@ -1168,6 +1358,8 @@ def replay(ctx, rp):
         reset_and_compile_checks(ctx, sf, rp["spec"])
     elif rp["kind"] == "heap-apply":
         heap_apply_cases(ctx, sf, [], [])
+    elif rp["kind"] == "heap-merge":
+        heap_merge_cases(ctx, sf, [], [])
     elif rp["kind"] == "heap-decompose":
         heap_decompose_cases(ctx, sf, [], [])
     else:
